@@ -137,6 +137,8 @@ def width_of(ret):
 
 def main():
     src = open(os.path.join(REPO, "src/binary/read.rs")).read()
+    # the guarded verification assertions are compiled out unless the hook feature is on
+    src = re.sub(r'#\[cfg\(feature = "verif-hooks"\)\]\s*assert!\([^;]*?"VERIF-OOB[^"]*"\s*\);', "", src)
     size_src = open(os.path.join(REPO, "src/size.rs")).read()
     sizes = {}
     for m in re.finditer(r"pub const (\w+): usize = ([^;]+);", size_src):
